@@ -325,6 +325,30 @@ func runC16(c *fw.Ctx) {
 	}
 	rec(nil)
 
+	// (1b) deep nesting: d open brackets of one or mixed kinds around an atom, complete and cut after the atom
+	for di, d := range []int{10, 100, 255, 256, 257, 300, 1000, 3000} {
+		if !c.Mine(di) {
+			continue
+		}
+		for _, kind := range []string{"(", "[", "mixed"} {
+			var toks []c16Tok
+			var closers []c16Tok
+			for k := 0; k < d; k++ {
+				o := kind
+				if kind == "mixed" {
+					o = []string{"(", "[", "("}[k%3]
+				}
+				toks = append(toks, c16Tok{o, 'o'})
+				closers = append([]c16Tok{{c16Closer[o], 'c'}}, closers...)
+			}
+			toks = append(toks, c16Tok{"a", 'y'})
+			full := append(append([]c16Tok(nil), toks...), closers...)
+			c16Check(c, nil, fmt.Sprintf("deepfull-%d-%s", d, kind), full, c16Join(nil, full), "deep-complete")
+			c16Check(c, nil, fmt.Sprintf("deepcut-%d-%s", d, kind), toks, c16Join(nil, toks), "deep-cut")
+			half := append(append([]c16Tok(nil), toks...), closers[:d/2]...)
+			c16Check(c, nil, fmt.Sprintf("deephalf-%d-%s", d, kind), half, c16Join(nil, half), "deep-cut")
+		}
+	}
 	// (2) generated expressions: every cut, every closer appended, one closer replaced, two expressions
 	r := c.Rand("exprs")
 	// the statement's closing brackets are those of list, vector, map and set; a stray » is not demanded to be
